@@ -898,4 +898,16 @@ theorem C02_heap_tc_from_sp_header_writes_caller_header :
       Holds ((tcFromSpHeader hdr 17 1 0 15 3).run s) fun tc s' => view s' hdr ≠ view s hdr ∧ headerOf s' tc = some hdr := by
   decide
 
+/-- … while an assignment of any SCALAR attribute of the caller's configuration (`conf.crc_flag = …`, `file_flag`,
+    `trans_mode`, `direction`, `seg_ctrl`) after the constructor does NOT change what is read through the PDU — the PDU
+    reads its own copy (general reason: `C11_heap_frame` + `C11_heap_conf_bytefields_shared`, the caller's cell is not
+    reachable from the PDU; here evaluated for all eight kinds, every scalar attribute and several values on `exConfStore`) -/
+theorem C11_heap_conf_scalar_write_invisible :
+    ∀ k ∈ [PduKind.ack, .prompt, .keepAlive, .nak, .eof, .finished, .metadata, .fileData],
+      Holds ((newPdu k 3 [] [7]).run exConfStore) fun pdu s' =>
+        3 ∉ reach s' pdu ∧
+        ∀ i ∈ [0, 1, 2, 3, 4], ∀ v ∈ [0, 1, 5],
+          Holds ((confSetScalar 3 i v).run s') fun _ s'' => view s'' pdu = view s' pdu ∧ view s'' 3 = view (s'.set 3 ⟨.pduConfig, [some 0, some 1, some 2], [0, 1, 1, 0, 0].set i v⟩) 3 := by
+  decide
+
 end SpVerif.Props.C11Heap
